@@ -25,10 +25,22 @@ TLoad ==
   /\ ~Ev.err
   /\ Ev.v = (IF LT(Ev.k, origin) THEN 0 ELSE Get(Ev.k))
   /\ UNCHANGED <<store, origin>>
+(* The report loop (saves) and a sync round (loads) use the store at the same time, without a lock:  *)
+(* every cell is written once with the value f of its own timeslot (the driver's choice), so a load  *)
+(* returns that value or "empty", re-saving it never fails, saving another value afterwards always  *)
+(* fails, and at the end every cell holds its own value.                                            *)
+TConc ==
+  /\ Ev.a \in {"ConcLoad", "ConcSaveOwn", "ConcSaveOther", "ConcFinal"}
+  /\ ~Ev.panic
+  /\ CASE Ev.a = "ConcLoad" -> ~Ev.err /\ Ev.v \in {0, Ev.f}
+       [] Ev.a = "ConcSaveOwn" -> ~Ev.err
+       [] Ev.a = "ConcSaveOther" -> Ev.err
+       [] Ev.a = "ConcFinal" -> ~Ev.err /\ Ev.v = Ev.f
+  /\ UNCHANGED <<store, origin>>
 TNext ==
   /\ l <= Len(Trace) /\ l' = l + 1
   /\ (IF l = DiagLine THEN PrintT(<<"DIAG", l, Ev, "store", store, "origin", origin>>) ELSE TRUE)
-  /\ (TOpen \/ TSave \/ TLoad)
+  /\ (TOpen \/ TSave \/ TLoad \/ TConc)
 TSpec == store = <<>> /\ origin = <<0, 0>> /\ l = 1 /\ [][TNext]_<<store, origin, l>>
 Accepted == TLCGet("stats").diameter - 1 = Len(Trace)
 =============================================================================
